@@ -25,7 +25,7 @@ import numpy as np
 
 ID = "C15"
 LEVEL = "exploration"
-BUDGET = {"quick": 300, "thorough": 1200}
+BUDGET = {"quick": 300, "thorough": 3600}
 CHUNK = 4
 RULE = (
     "cases = product of shapes x num_scales x scale_factor x interval (level 0) and single/paired departures "
